@@ -5,6 +5,15 @@ ENGINES = [
     {"name": "E1 sched-trace", "path": "spec/TraceSched.tla + spec/SchedCore.tla + harness/e1.py",
      "serves_properties": ["C01", "C02", "C03", "C04", "C05", "C06", "C07", "C08", "C10"],
      "kind_free_text": "code -> spec: hook events of real runs are replayed by TLC, every property predicate evaluated on every observed state, every step compared with the step the spec computes"},
+    {"name": "E2 sched-universe", "path": "spec/Sched.tla + spec/MC_*.tla + harness/e2.py",
+     "serves_properties": ["C07"],
+     "kind_free_text": "spec -> code: TLC runs the scheduler state machine over bounded universes with all properties as invariants and every terminal state is replayed through rendered text into the real code"},
+    {"name": "E4 algebra", "path": "spec/Algebra.tla + harness/algrun.py + harness/props_alg.py",
+     "serves_properties": ["C13", "C17"],
+     "kind_free_text": "laws ASSUMEd and checked by TLC; recorded calls of compiled and pure implementations validated against the operators"},
+    {"name": "E5 relate", "path": "spec/Relate.tla + harness/props_rel.py",
+     "serves_properties": ["C09", "C14", "C15", "C16"],
+     "kind_free_text": "relational obligations between traced runs decided by TLC"},
 ]
 
 TRACE_NOTE = ("trusted: TLC, CPython datetime/zoneinfo, the harness renderer (abstract project -> .tjp) and runner; "
@@ -49,9 +58,38 @@ CLAIMS = {
             "note": TRACE_NOTE},
 }
 
+REL_NOTE = ("every run is traced and validated by TLC against TraceSched; the relation between two runs (equal dates and event digests "
+            "after alignment) is decided by spec/Relate.tla. Bounded: generated base projects x listed variants.")
+CLAIMS.update({
+    "C09": {"engine": "E5 relate", "design_ref": "DESIGN.md 5/C09",
+            "technique": "TLA+ trace validation of both runs + relational obligation (Relate.tla) on the common tasks; pick-order check on the trace",
+            "text": "base project x added strictly-lowest-priority task: dates of all other tasks identical (pairs with different horizons excluded, counted), intruder picked last",
+            "note": REL_NOTE},
+    "C13": {"engine": "E4 algebra", "design_ref": "DESIGN.md 5/C13",
+            "technique": "recorded calls of both implementations validated by TLC against the operators of Algebra.tla and against each other; whole-project traces native vs pure compared event by event",
+            "text": "bounded grid of the property (conversion, run scanning, every sampled minute of the week x interval tables) exhaustively, plus generated projects and fixtures end to end with extensions rebuilt from source and with imports blocked",
+            "note": "trusted: TLC, CPython datetime; the grid is bounded (resolutions 1..60 min, windows <= 3 days, patterns <= 9 slots)"},
+    "C14": {"engine": "E5 relate", "design_ref": "DESIGN.md 5/C14",
+            "technique": "one abstract project, many week-shifted renderings; every rendering trace-validated by TLC; Relate.tla obligation: identical events and dates relative to the project start",
+            "text": "offsets 1 week .. 5 years incl. those landing on 2020/21, 2026/27, 2032/33 (53-week years) and 29 Feb; limits, ALAP, calendars, leaves",
+            "note": REL_NOTE},
+    "C15": {"engine": "E5 relate", "design_ref": "DESIGN.md 5/C15",
+            "technique": "one abstract project, nine spellings; every spelling trace-validated by TLC; Relate.tla obligation: identical events and dates",
+            "text": "renaming (awkward identifiers), relative/absolute paths, precedes, shift reference vs inline hours, three comment styles, macros with/without argument, all combined",
+            "note": REL_NOTE},
+    "C16": {"engine": "E5 relate", "design_ref": "DESIGN.md 5/C16",
+            "technique": "per-scenario sub-traces validated by TLC against the spec instance of the effective project; Relate.tla obligation scenario i == single-scenario rendering of its effective attributes",
+            "text": "1-4 scenarios, nesting, siblings, effort/start overrides, limits (counters must not carry over), overrides needing a longer horizon",
+            "note": REL_NOTE + " Pairs whose horizons differ while some task does not fit are excluded (all scenarios share one horizon); ASAP projects only."},
+    "C17": {"engine": "E4 algebra", "design_ref": "DESIGN.md 5/C17",
+            "technique": "laws ASSUMEd in Algebra.tla (checked by TLC on the bounded grid) + every recorded call of both implementations validated against the operators",
+            "text": "IndexOf/TimeOf/Size/Clamp/Runs are TLA+ operators with their laws; all indices of bounded windows x 5 resolutions x start offsets and all predicate patterns <= 7/9 slots x windows x min lengths executed on the real functions and compared by TLC",
+            "note": "trusted: TLC, CPython datetime; exhaustive within the stated bounds"},
+})
+
 _PENDING = "check under construction in this build round (see DESIGN.md 9.1); not claimed until it runs clean"
 NOT_APPLICABLE = [{"property_id": p, "reason": _PENDING} for p in
-                  ("C09", "C11", "C12", "C13", "C14", "C15", "C16", "C17", "C18", "C19", "C20")]
+                  ("C11", "C12", "C18", "C19", "C20")]
 
 NOTES = ("Single entry point ./check <id> --tier quick|thorough [--replay path]. exit 0 held / 1 VIOLATION line / 2 machinery failure. "
          "Known findings: known_findings.json (open entries print KNOWN-FINDING and are excluded from the main exploration by class).")
